@@ -396,11 +396,10 @@ pub fn c16(out: &mut Out) {
                     let _ = pw.process_incoming_message(&line.to_string(), &mut none).await;
                     if pause_every > 0 && (i + 1) % pause_every == 0 { tokio::time::sleep(Duration::from_millis(45)).await; }
                 }
-                tokio::time::sleep(Duration::from_millis(120)).await;
                 while rx_w.try_recv().is_ok() {}
-                // per key: the sequence of (deleted?, value) events
-                let per_key = |rx: &mut mpsc::Receiver<ServerMessage>| -> BTreeMap<String, Vec<(bool, Value)>> {
-                    let mut m: BTreeMap<String, Vec<(bool, Value)>> = BTreeMap::new();
+                // per key: the sequence of (deleted?, value) events; the aggregated side is given time to flush (the delay bound itself is not checked:
+                // polling until both sides agree, for at most 5 s, keeps a slow machine from producing an alarm)
+                fn absorb(rx: &mut mpsc::Receiver<ServerMessage>, m: &mut BTreeMap<String, Vec<(bool, Value)>>) {
                     while let Ok(msg) = rx.try_recv() {
                         if let ServerMessage::PState(ps) = msg {
                             match ps.event {
@@ -409,10 +408,19 @@ pub fn c16(out: &mut Out) {
                             }
                         }
                     }
-                    m
-                };
-                let got = per_key(&mut rx_a);
-                let want = per_key(&mut rx_p);
+                }
+                let mut got: BTreeMap<String, Vec<(bool, Value)>> = BTreeMap::new();
+                let mut want: BTreeMap<String, Vec<(bool, Value)>> = BTreeMap::new();
+                for _ in 0..100 {
+                    tokio::time::sleep(Duration::from_millis(50)).await;
+                    absorb(&mut rx_a, &mut got);
+                    absorb(&mut rx_p, &mut want);
+                    if got == want && !want.is_empty() { break; }
+                }
+                // nothing may arrive later that breaks the agreement
+                tokio::time::sleep(Duration::from_millis(100)).await;
+                absorb(&mut rx_a, &mut got);
+                absorb(&mut rx_p, &mut want);
                 if got != want { Some(json!({"aggregated_subscription_saw": format!("{got:?}"), "plain_subscription_saw": format!("{want:?}")})) } else { None }
             })));
             match r {
